@@ -5,7 +5,7 @@ From TV Require Import spec.Storage spec.Spec proofs.SpecSums proofs.SpecLemmas 
                        model.DesugarSem model.Exhaust proofs.ExhaustProofs
                        model.DesugarSemGraph proofs.DesugarSemGraphProofs
                        model.Kernel proofs.KernelLocate proofs.KernelEncode proofs.KernelExhaust
-                       proofs.KernelSound proofs.KernelSupport proofs.KernelBucket.
+                       proofs.KernelSound proofs.KernelSupport proofs.KernelBucket proofs.KernelSane.
 Import ListNotations.
 Local Open Scope Z_scope.
 
@@ -127,6 +127,25 @@ Proof.
   destruct (graph_okb_parts _ _ _ Hok) as (LOK & CFG & Hs & Hw & ND & NDt & Lt & Eo).
   unfold support_okb in Hsup. apply andb_true_iff in Hsup. destruct Hsup as [LEX Hcl].
   apply (G_no_phantoms_level_gen cfg LOK LEX CFG g l p); auto. rewrite El. apply incl_refl.
+Qed.
+
+(** the sanity bit of the model is true: no live leaf is ever read where it cannot be located *)
+Theorem G_sane_bit (cfg : kcfg) (g : graph Z) (tgt : list string) :
+  k_leaves cfg = graph_leaves g ->
+  graph_okb cfg g tgt = true -> support_okb cfg g = true -> snd (G cfg g) = true.
+Proof.
+  intros El Hok Hsup. destruct (graph_okb_parts _ _ _ Hok) as (LOK & CFG & Hs & Hw & _).
+  unfold support_okb in Hsup. apply andb_true_iff in Hsup. destruct Hsup as [LEX Hcl].
+  apply (G_sane cfg LOK LEX g); auto. rewrite El. apply incl_refl.
+Qed.
+
+(** support is necessary for a non-zero value *)
+Theorem G_support_necessary (cfg : kcfg) (g : graph Z) (rho : val) :
+  leaves_okb cfg = true -> k_leaves cfg = graph_leaves g ->
+  gsupp cfg g rho = false ->
+  gdenote (O := ZOps) (envE cfg) (k_sizes cfg) (ordsE cfg) g rho = 0.
+Proof.
+  intros LOK El Hn. apply (gsupp_zero cfg LOK g); [rewrite El; apply incl_refl|exact Hn].
 Qed.
 
 (** evaluated by the correspondence on every swept case: do the side conditions of the theorems
